@@ -150,6 +150,8 @@ type Frame struct {
 	unrolling   *loop
 	pendingBack []predEdge
 	escapeAt    map[ssa.Instruction][]*ssa.Alloc
+	pendingOuts []copyBack
+	kindOrd     map[string]map[ssa.Instruction]int
 }
 
 type predEdge struct {
@@ -417,8 +419,7 @@ func (fr *Frame) materialise(l *LVal, st *State) Term {
 	if (l.kind == rkHeap || l.kind == rkElems) && len(l.path) == 0 {
 		return l.ref
 	}
-	p := c.sc.fresh("addr", SRef)
-	c.sc.assume(not(eq(p, Term{"nil_ref", SRef})))
+	p := c.newRef("addr") // a temporary object standing for the addressed location
 	// copy-in
 	cur := fr.read(l, st)
 	if arr, ok := l.typ.Underlying().(*types.Array); ok {
